@@ -84,4 +84,49 @@ example :
     (∀ e ∈ [[[1, 2], [3]], [[1, 2], [4]]] ++ [[[1, 3], [0]]], (runBytes ps e 0 (ps.length - 1)).length = 3) := by
   decide +kernel
 
+
+/-! ### signed integer types -/
+
+/-- the value a signed integer type of `vb` bytes reads from the unsigned representation `v` (two's complement) -/
+def toSigned (vb : Nat) (v : Nat) : Int := if v < 2 ^ (8 * vb - 1) then (v : Int) else (v : Int) - 2 ^ (8 * vb)
+
+/-- `ordVal` is what the model compares for a signed type: it orders the representations exactly as `<` orders the
+    signed values -/
+theorem ordVal_signed_is_value_order (p : Param) (hs : p.ty.signed = true) (hvb : 0 < p.vb) (a b : Nat)
+    (ha : a < 2 ^ (8 * p.vb)) (hb : b < 2 ^ (8 * p.vb)) :
+    ordVal p a < ordVal p b ↔ toSigned p.vb a < toSigned p.vb b := by
+  have hpow : 2 ^ (8 * p.vb) = 2 * 2 ^ (8 * p.vb - 1) := by
+    have : 8 * p.vb = (8 * p.vb - 1) + 1 := by omega
+    conv => lhs; rw [this, Nat.pow_succ]
+    omega
+  have hpowI : (2 : Int) ^ (8 * p.vb) = 2 * ((2 ^ (8 * p.vb - 1) : Nat) : Int) := by
+    have := congrArg (fun n : Nat => (n : Int)) hpow
+    simpa using this
+  unfold ordVal toSigned
+  simp only [hs, if_true]
+  rw [hpowI]
+  generalize 2 ^ (8 * p.vb - 1) = M at *
+  rw [hpow] at ha hb ⊢
+  by_cases h1 : a < M <;> by_cases h2 : b < M <;> simp only [h1, h2, if_true, if_false]
+  · rw [Nat.mod_eq_of_lt (by omega), Nat.mod_eq_of_lt (by omega)]; omega
+  · have e2 : (b + M) % (2 * M) = b - M := by
+      rw [show b + M = (b - M) + 2 * M by omega, Nat.add_mod_right, Nat.mod_eq_of_lt (by omega)]
+    rw [Nat.mod_eq_of_lt (by omega), e2]; omega
+  · have e1 : (a + M) % (2 * M) = a - M := by
+      rw [show a + M = (a - M) + 2 * M by omega, Nat.add_mod_right, Nat.mod_eq_of_lt (by omega)]
+    rw [e1, Nat.mod_eq_of_lt (by omega)]; omega
+  · have e1 : (a + M) % (2 * M) = a - M := by
+      rw [show a + M = (a - M) + 2 * M by omega, Nat.add_mod_right, Nat.mod_eq_of_lt (by omega)]
+    have e2 : (b + M) % (2 * M) = b - M := by
+      rw [show b + M = (b - M) + 2 * M by omega, Nat.add_mod_right, Nat.mod_eq_of_lt (by omega)]
+    rw [e1, e2]; omega
+
+theorem ordVal_unsigned (p : Param) (hs : p.ty.signed = false) (v : Nat) : ordVal p v = v := by simp [ordVal, hs]
+
+/-- why `signed char` must not be compared by `memcmp`: −56 < 1 as values, 200 > 1 as bytes; the element-wise path decides
+    by value -/
+example :
+    let ps : List Param := [⟨.plain, 1, 1, { lexMemcmp := false, signed := true }⟩]
+    vecLt ps [] [] [[[200]]] [[[1]]] = true ∧ lexLt (vecBytes ps [[[200]]]) (vecBytes ps [[[1]]]) = false := by decide +kernel
+
 end Cntgs.C14
